@@ -63,17 +63,23 @@ def gen(seed, run, tier='quick'):
     n_g = 3
     gconvs = []
     for k in range(n_g):
-        kind = rng.choice(['stub', 'stub', 'table', 'method', 'unhashable'])
+        kind = rng.choice(['stub', 'stub', 'table', 'method', 'unhashable',
+                           'subtable'])
         table = {}
         for a in range(3):
             for b in range(3):
                 if a == b:
                     continue
                 x = rng.random()
-                if kind == 'table':
+                if kind in ('table', 'subtable'):
                     if a < b and x < 0.6:
                         table[f"{a}{b}"] = ['amt', f"{rng.randrange(2, 900)}/7",
                                             str(rng.randrange(0, 50))]
+                        if kind == 'subtable' and rng.random() < 0.6:
+                            # a TableConverter sub-class whose __call__
+                            # declines this pair (in which direction, says
+                            # the digit) although the table covers it
+                            table[f"{a}{b}"].append(rng.randrange(3))
                 else:
                     if x < 0.4:
                         table[f"{a}{b}"] = ['amt',
@@ -399,6 +405,27 @@ def execute(h):
             gconvs.append(TableConverter(
                 tab if k % 2 else [(u1, u2, f, o)
                                    for (u1, u2), (f, o) in tab.items()]))
+        elif spec['kind'] == 'subtable':
+            tab = {(gunits[int(key[0])], gunits[int(key[1])]):
+                   (_frac(e[1]), _frac(e[2]))
+                   for key, e in sorted(spec['table'].items())}
+            declined = set()
+            for key, e in spec['table'].items():
+                if len(e) > 3:
+                    a_, b_ = int(key[0]), int(key[1])
+                    if e[3] in (0, 2):
+                        declined.add((a_, b_))
+                    if e[3] in (1, 2):
+                        declined.add((b_, a_))
+
+            class RangeTable(TableConverter):
+                """valid for part of what its table covers"""
+                def __call__(self, qty, to_unit, _declined=declined):
+                    if (gunits.index(qty.unit),
+                            gunits.index(to_unit)) in _declined:
+                        return None
+                    return super().__call__(qty, to_unit)
+            gconvs.append(RangeTable(tab))
         elif spec['kind'] == 'method':
             gconvs.append(_Method(Stub(k, spec['table'])))
         elif spec['kind'] == 'unhashable':
